@@ -57,11 +57,10 @@ Theorem no_growth t ops : restores t ops -> forall n, restores t (repeat_ops n o
 Proof.
   intros (t1 & E1 & H1) n. induction n as [|k IH]; cbn [repeat_ops].
   - exists t. split; [reflexivity|apply table_eq_refl].
-  - destruct IH as (tk & Ek & Hk). rewrite apply_ops_app, E1.
-    destruct (apply_ops_compat _ t t1 tk (table_eq_sym _ _ (table_eq_sym _ _ (table_eq_refl t))) Ek) as (u & Eu & Hu).
+  - destruct IH as (tk & Ek & Hk).
     (* run the remaining repetitions from t1, which equals t as a map *)
     destruct (apply_ops_compat (repeat_ops k ops) t t1 tk (table_eq_sym _ _ H1) Ek) as (u1 & Eu1 & Hu1).
-    exists u1. split; [exact Eu1|].
+    exists u1. split; [rewrite apply_ops_app, E1; exact Eu1|].
     eapply table_eq_trans; [apply table_eq_sym; exact Hu1|exact Hk].
 Qed.
 
@@ -121,15 +120,17 @@ Theorem handoff_ok a h s c ta tw :
 Proof.
   intros Ha Honly Hw Hh Hs Hhs Hh0 Hs0 p0.
   assert (Hma : zmem a ta = true) by (eapply zmem_some; exact Ha).
-  eexists _, _, _, _. cbn [apply_hop p0 acceptor inflight worker apply_op app].
-  rewrite Ha. split; [reflexivity|]. rewrite Hma. split; [reflexivity|].
-  replace ((h <? 0)%Z) with false by (symmetry; apply Z.ltb_ge; exact Hh0). rewrite Hh. cbn [orb].
-  split; [reflexivity|]. cbn [acceptor inflight worker].
-  rewrite zget_zset_same.
-  replace ((s <? 0)%Z) with false by (symmetry; apply Z.ltb_ge; exact Hs0).
+  assert (Lh : (h <? 0)%Z = false) by (apply Z.ltb_ge; exact Hh0).
+  assert (Ls : (s <? 0)%Z = false) by (apply Z.ltb_ge; exact Hs0).
   assert (Hs' : zmem s (zset h c tw) = false).
   { rewrite zmem_zset, Hs. apply Z.eqb_neq in Hhs. rewrite Z.eqb_sym, Hhs. reflexivity. }
-  rewrite Hs'. cbn [orb]. split; [reflexivity|]. cbn [acceptor inflight worker].
+  exists {| acceptor := ta; inflight := [c]; worker := tw |},
+         {| acceptor := zdel a ta; inflight := [c]; worker := tw |},
+         {| acceptor := zdel a ta; inflight := []; worker := zset h c tw |},
+         {| acceptor := zdel a ta; inflight := []; worker := zset s c (zset h c tw) |}.
+  unfold p0. cbn [apply_hop acceptor inflight worker apply_op app].
+  rewrite Ha, Hma, Lh, Hh, zget_zset_same, Ls, Hs'. cbn [orb].
+  split; [reflexivity|]. split; [reflexivity|]. split; [reflexivity|]. split; [reflexivity|].
   split; [left; exists a; exact Ha|].
   split; [right; left; left; reflexivity|].
   split; [right; right; exists h; apply zget_zset_same|].
@@ -160,8 +161,9 @@ Proof.
   rewrite (zmem_some _ _ _ Hs).
   assert (Hm : zmem h (zdel s tw) = true).
   { rewrite zmem_zdel. apply Z.eqb_neq in Hhs. rewrite Hhs. cbn. eapply zmem_some; exact Hh. }
-  rewrite Hm. eexists. split; [reflexivity|]. cbn [acceptor inflight worker]. split.
-  - intros [[f Hf]|[[]|[f Hf]]]; [eapply Hta; exact Hf|].
+  cbn [apply_hops apply_hop apply_op acceptor inflight worker]. rewrite Hm.
+  eexists. split; [reflexivity|]. cbn [acceptor inflight worker]. split.
+  - intros [[f Hf]|[[]|[f Hf]]]; [eapply Hta; exact Hf|]. cbn [worker] in Hf.
     rewrite !zget_zdel in Hf. destruct (f =? h)%Z eqn:E1; [discriminate|]. destruct (f =? s)%Z eqn:E2; [discriminate|].
     apply Z.eqb_neq in E1, E2. destruct (Honly f Hf); contradiction.
   - intros f Hfh Hfs. rewrite !zget_zdel_other by assumption. reflexivity.
@@ -276,3 +278,360 @@ Proof.
   cbn. eexists. split; [reflexivity|]. split; [reflexivity|].
   intros (t' & E & H). cbn in E. inversion E; subst. specialize (H 8%Z). cbn in H. discriminate.
 Qed.
+
+(* ------------------------------------------------------------------ D. executor bookkeeping *)
+Section ExecC10.
+  Variable W : Type.
+  Variable IO : Type.
+  Variable w_initialize : W -> IO -> W * result unit.
+  Variable w_get_events : W -> IO -> W * result sel_events.
+  Variable w_handle_events : W -> list fd -> list fd -> IO -> W * result bool.
+  Variable w_shutdown : W -> IO -> W * result unit.
+  Variable w_is_inactive : W -> N -> IO -> W * result bool.
+  Variable wq : option fd.
+  Variable tick_limit : N.
+
+  Notation State := (state W).
+  Notation Event := (event W IO).
+  Notation CLEANUP := (cleanup W IO w_shutdown wq).
+  Notation UWE_LOOP := (uwe_loop W IO).
+  Notation UWE := (update_work_events W IO w_get_events).
+  Notation UPD_ONE := (update_selector_one W IO w_get_events w_shutdown wq).
+  Notation UPD := (update_selector W IO w_get_events w_shutdown wq).
+  Notation DO_WORK := (do_work W IO w_initialize w_shutdown wq).
+  Notation RECEIVE := (receive_from_work_queue W IO w_initialize w_shutdown wq).
+  Notation RUN_TASK := (run_task W IO w_handle_events).
+  Notation RUN_TASKS := (run_tasks W IO w_handle_events).
+  Notation CLEANUP_FIN := (cleanup_finished W IO w_shutdown wq).
+  Notation REST := (run_once_rest W IO w_initialize w_handle_events w_shutdown wq).
+  Notation SCAN := (inactive_scan W IO w_is_inactive).
+  Notation CLEANUP_INACTIVE := (cleanup_inactive W IO w_shutdown w_is_inactive wq).
+  Notation BODY := (loop_body W IO w_initialize w_get_events w_handle_events w_shutdown w_is_inactive wq tick_limit).
+  Notation RUN := (run_forever W IO w_initialize w_get_events w_handle_events w_shutdown w_is_inactive wq tick_limit).
+  Notation INV := (inv W wq).
+  Notation SCHED_OK := (sched_ok W IO w_initialize w_get_events w_handle_events w_shutdown w_is_inactive wq tick_limit).
+
+  (* nothing of work i is left in the executor *)
+  Definition clean (i : work_id) (st : State) : Prop :=
+    zget i (works st) = None /\ zget i (registered st) = None /\
+    (forall f m, zget f (sel st) <> Some (m, i)).
+
+  Theorem gone_is_clean i (st : State) :
+    INV None st -> zmem i (works st) = false -> wq <> Some i -> clean i st.
+  Proof.
+    intros Hinv Hi Hq. split; [apply zmem_false; exact Hi|]. split.
+    - apply zmem_false. destruct (zmem i (registered st)) eqn:E; [|reflexivity].
+      rewrite (inv_reg_works _ _ _ _ Hinv i E) in Hi. discriminate.
+    - intros f m Hf. destruct (inv_sel_reg _ _ _ _ Hinv f m i Hf) as [(Hw & _ & Hd)|(_ & Hd & _)].
+      + subst f. contradiction.
+      + congruence.
+  Qed.
+
+  (* _cleanup(i): the work, its registrations and its selector keys are gone, everything else is untouched *)
+  Theorem cleanup_bookkeeping e i (st : State) :
+    INV None st -> wq <> Some i ->
+    let st' := CLEANUP e i st in
+    clean i st' /\
+    (forall j, j <> i -> zget j (works st') = zget j (works st) /\ zget j (registered st') = zget j (registered st)) /\
+    (forall f m d, d <> i -> (zget f (sel st') = Some (m, d) <-> zget f (sel st) = Some (m, d))) /\
+    unfinished st' = unfinished st /\ tick st' = tick st /\ total st' = total st /\
+    oslog st' = (match zget i (works st), wq with Some _, Some _ => oslog st ++ [OsClose i] | _, _ => oslog st end) /\
+    INV None st'.
+  Proof.
+    intros Hinv Hq st'.
+    assert (Hinv' : INV None st') by (apply cleanup_inv, inv_weaken; exact Hinv).
+    split.
+    { apply gone_is_clean; [exact Hinv'| |exact Hq]. subst st'. rewrite cleanup_works, zmem_zdel, Z.eqb_refl. reflexivity. }
+    split.
+    { intros j Hj. subst st'. rewrite cleanup_works, cleanup_registered, !zget_zdel_other by exact Hj. split; reflexivity. }
+    split.
+    { intros f m d Hd. subst st'. rewrite cleanup_sel_get.
+      destruct (zmem f (regs_of W i st)) eqn:Em; cbn [andb].
+      - apply zmem_zget in Em. destruct (zget f (regs_of W i st)) as [m'|] eqn:Er; [|congruence].
+        destruct (inv_reg_sel _ _ _ _ Hinv i f m' Er) as [Hs|[X _]]; [|discriminate].
+        assert (H0 : (0 <=? f)%Z = true).
+        { apply Z.leb_le. eapply (inv_fd_nonneg _ _ _ _ Hinv); [exact Hs|].
+          intros Hw. rewrite (inv_wq_reg _ _ _ _ Hinv f i Hw) in Er. discriminate. }
+        rewrite H0. split; [discriminate|]. intros Hf. rewrite Hs in Hf. inversion Hf; subst. contradiction.
+      - tauto. }
+    subst st'. rewrite cleanup_unfinished, cleanup_tick, cleanup_total, cleanup_oslog.
+    split; [reflexivity|]. split; [reflexivity|]. split; [reflexivity|]. split; [reflexivity|exact Hinv'].
+  Qed.
+
+  (* when no work is live the executor's bookkeeping is what it was at start-up *)
+  Theorem quiescent_is_initial (st : State) :
+    INV None st -> works st = [] ->
+    registered st = [] /\ forall f, zget f (sel st) = zget f (sel (init_state W wq)).
+  Proof.
+    intros Hinv Hw. split.
+    - destruct (registered st) as [|[j r] t] eqn:E; [reflexivity|]. exfalso.
+      assert (Hm : zmem j (registered st) = true) by (rewrite E; unfold zmem; cbn [zget]; rewrite Z.eqb_refl; reflexivity).
+      pose proof (inv_reg_works _ _ _ _ Hinv j Hm) as Hx. rewrite Hw in Hx. discriminate.
+    - intros f. unfold init_state; cbn [sel].
+      destruct (zget f (sel st)) as [[m d]|] eqn:Ef.
+      + destruct (inv_sel_reg _ _ _ _ Hinv f m d Ef) as [(Hq & -> & ->)|(_ & Hd & _)].
+        * rewrite Hq. cbn [zget]. rewrite Z.eqb_refl. reflexivity.
+        * rewrite Hw in Hd. discriminate.
+      + destruct wq as [q|] eqn:Hq; cbn [zget]; [|reflexivity].
+        destruct (f =? q)%Z eqn:E; [|reflexivity]. apply Z.eqb_eq in E; subst f.
+        rewrite (inv_wq _ _ _ _ Hinv q eq_refl) in Ef. discriminate.
+  Qed.
+
+  (* ---------------------------------------------------------------- every kind of ending removes the work in the same iteration *)
+  Lemma cleanup_absent_stays e j i (st : State) :
+    zmem i (works st) = false -> zmem i (works (CLEANUP e j st)) = false.
+  Proof. intros H. rewrite cleanup_works, zmem_zdel, H. apply andb_false_r. Qed.
+
+  (* E1/E2: handle_events returned True (normal end, peer closed, error answered) or raised *)
+  Theorem finished_teardown_cleaned e i res : forall (st : State),
+    In (i, true) res -> zmem i (works (CLEANUP_FIN e st res)) = false.
+  Proof.
+    unfold cleanup_finished. induction res as [|[j td] t IH]; intros st Hin; [destruct Hin|].
+    cbn [fold_left fst snd]. destruct Hin as [Heq|Hin].
+    - inversion Heq; subst. clear IH.
+      assert (H0 : zmem i (works (CLEANUP e i st)) = false) by (rewrite cleanup_works, zmem_zdel, Z.eqb_refl; reflexivity).
+      revert H0. generalize (CLEANUP e i st). induction t as [|[k tk] t' IH']; intros s0 H0; cbn [fold_left fst snd]; [exact H0|].
+      apply IH'. destruct tk; [apply cleanup_absent_stays; exact H0|exact H0].
+    - apply IH; exact Hin.
+  Qed.
+
+  (* E5/E6: idle timeout (is_inactive True) or is_inactive raising, at the periodic sweep *)
+  Theorem inactive_cleaned e i l : forall (st : State),
+    In i l -> zmem i (works (fold_left (fun st j => CLEANUP e j st) l st)) = false.
+  Proof.
+    induction l as [|j t IH]; intros st Hin; [destruct Hin|]. cbn [fold_left]. destruct Hin as [->|Hin].
+    - assert (H0 : zmem i (works (CLEANUP e i st)) = false) by (rewrite cleanup_works, zmem_zdel, Z.eqb_refl; reflexivity).
+      revert H0. generalize (CLEANUP e i st). clear IH. induction t as [|k t' IH']; intros s0 H0; cbn [fold_left]; [exact H0|].
+      apply IH'. apply cleanup_absent_stays; exact H0.
+    - apply IH; exact Hin.
+  Qed.
+
+  (* E3/E4: get_events raising, or the selector refusing a descriptor the work closed or replaced *)
+  Theorem failed_update_cleaned e unf i (st : State) st' x :
+    zin i unf = false -> UWE e i st = (st', Err x) -> zmem i (works (UPD_ONE e unf st i)) = false.
+  Proof.
+    intros Hu E. unfold update_selector_one. rewrite Hu, E.
+    rewrite cleanup_works, zmem_zdel, Z.eqb_refl. reflexivity.
+  Qed.
+
+  (* E7: initialize raising *)
+  Theorem failed_init_cleaned e i w (st : State) x :
+    snd (w_initialize w (ev_io e i)) = Err x -> zmem i (works (DO_WORK e i w st)) = false.
+  Proof.
+    intros E. unfold do_work. destruct (w_initialize w (ev_io e i)) as [w' r]. cbn [snd] in E. subst r.
+    rewrite cleanup_works, zmem_zdel, Z.eqb_refl. reflexivity.
+  Qed.
+
+  (* ---------------------------------------------------------------- received handles are closed exactly once *)
+  Fixpoint balance (i : fd) (l : list osop) : Z :=
+    match l with
+    | [] => 0
+    | OsDup j :: t => (if (j =? i)%Z then 1 else 0) + balance i t
+    | OsClose j :: t => (if (j =? i)%Z then -1 else 0) + balance i t
+    end%Z.
+
+  Lemma balance_app i a b : balance i (a ++ b) = (balance i a + balance i b)%Z.
+  Proof. induction a as [|[j|j] t IH]; cbn [balance app]; [reflexivity| |]; rewrite IH; lia. Qed.
+
+  (* remote executor: a received handle is open (dup'ed, not yet closed) iff its work is live;
+     local executor: the executor itself never touches descriptors *)
+  Definition hb (st : State) : Prop :=
+    forall i, balance i (oslog st) =
+              match wq with Some _ => if zmem i (works st) then 1%Z else 0%Z | None => 0%Z end.
+
+  Definition same_hw (st st' : State) : Prop :=
+    (forall j, zmem j (works st') = zmem j (works st)) /\ oslog st' = oslog st.
+
+  Lemma hb_same_hw st st' : same_hw st st' -> hb st -> hb st'.
+  Proof. intros [Hw Ho] H i. rewrite Ho, Hw. apply H. Qed.
+  Lemma same_hw_refl st : same_hw st st.
+  Proof. split; [intros; reflexivity|reflexivity]. Qed.
+  Lemma same_hw_trans a b c : same_hw a b -> same_hw b c -> same_hw a c.
+  Proof. intros [A1 A2] [B1 B2]. split; [intros j; rewrite B1; apply A1|congruence]. Qed.
+
+  Lemma cleanup_hb e i (st : State) : hb st -> hb (CLEANUP e i st).
+  Proof.
+    intros H j. rewrite cleanup_oslog, cleanup_works, zmem_zdel. specialize (H j).
+    destruct wq as [q|]; [|destruct (zget i (works st)); exact H].
+    destruct (zget i (works st)) as [w|] eqn:Ew.
+    - rewrite balance_app. cbn [balance]. rewrite H. rewrite (Z.eqb_sym i j).
+      destruct (j =? i)%Z eqn:E; cbn [negb andb].
+      + apply Z.eqb_eq in E; subst. rewrite (zmem_some _ _ _ Ew). lia.
+      + destruct (zmem j (works st)); lia.
+    - rewrite H. destruct (j =? i)%Z eqn:E; cbn [negb andb]; [|reflexivity].
+      apply Z.eqb_eq in E; subst. unfold zmem. rewrite Ew. reflexivity.
+  Qed.
+
+  Lemma set_works_existing_hw (st : State) i w :
+    zmem i (works st) = true -> same_hw st (set_works st (zset i w (works st))).
+  Proof.
+    intros Hi. split; [|reflexivity]. intros j. cbn [works set_works]. rewrite zmem_zset.
+    destruct (j =? i)%Z eqn:E; [|reflexivity]. apply Z.eqb_eq in E; subst; symmetry; exact Hi.
+  Qed.
+
+  Lemma same_core_hw (st st' : State) : same_core W st st' -> same_hw st st'.
+  Proof. intros (A1&_&_&_&_&A6). split; [intros j; rewrite A1; reflexivity|exact A6]. Qed.
+
+  Lemma uwe_loop_hw e i evs : forall (st : State) st' r, UWE_LOOP e i st evs = (st', r) -> same_hw st st'.
+  Proof.
+    induction evs as [|fm t IH]; intros st st' r; cbn [uwe_loop]; [intros X; inversion X; subst; apply same_hw_refl|].
+    destruct (uwe_one W IO e i st fm) as [st1 r1] eqn:E1.
+    assert (H1 : same_hw st st1).
+    { apply same_core_hw. revert E1. unfold uwe_one. destruct fm as [f m].
+      change (if zmem i (registered st) then st else set_registered st (zset i [] (registered st))) with (ensure_reg W i st).
+      pose proof (ensure_core W i st) as Hc. set (st0 := ensure_reg W i st) in *. clearbody st0.
+      destruct (zget f (regs_of W i st0)).
+      - destruct (m =? m0); [intros X; inversion X; subst; exact Hc|].
+        destruct (sel_modify (ev_kfail e) (sel st0) f m i) as [sm' rr]. destruct rr; intros X; inversion X; subst;
+          (eapply same_core_trans; [exact Hc|repeat split]).
+      - destruct (f =? -1)%Z; [intros X; inversion X; subst; exact Hc|].
+        destruct (sel_register (ev_kfail e) (sel st0) f m i) as [sm'|x].
+        + intros X; inversion X; subst. eapply same_core_trans; [exact Hc|repeat split].
+        + destruct x; intros X; inversion X; subst; exact Hc. }
+    destruct r1; [intros X; eapply same_hw_trans; [exact H1|eapply IH; exact X]|intros X; inversion X; subst; exact H1].
+  Qed.
+
+  Lemma update_work_events_hw e i (st : State) st' r : UWE e i st = (st', r) -> same_hw st st'.
+  Proof.
+    unfold update_work_events. destruct (zget i (works st)) as [w|] eqn:Ew; [|intros X; inversion X; subst; apply same_hw_refl].
+    destruct (w_get_events w (ev_io e i)) as [w' rg].
+    pose proof (set_works_existing_hw st i w' (zmem_some _ _ _ Ew)) as H1.
+    destruct rg; [intros X; eapply same_hw_trans; [exact H1|eapply uwe_loop_hw; exact X]|intros X; inversion X; subst; exact H1].
+  Qed.
+
+  Lemma update_selector_one_hb e unf (st : State) i : hb st -> hb (UPD_ONE e unf st i).
+  Proof.
+    intros H. unfold update_selector_one. destruct (zin i unf); [exact H|].
+    destruct (UWE e i st) as [st' r] eqn:E. pose proof (hb_same_hw _ _ (update_work_events_hw e i st st' r E) H) as H1.
+    destruct r; [exact H1|apply cleanup_hb; exact H1].
+  Qed.
+
+  Lemma update_selector_hb e (st : State) : hb st -> hb (UPD e st).
+  Proof.
+    unfold update_selector. generalize (map t_work (unfinished st)) as unf. generalize (zkeys (works st)) as l.
+    intros l unf. revert st. induction l as [|i t IH]; intros st H; cbn [fold_left]; [exact H|].
+    apply IH, update_selector_one_hb, H.
+  Qed.
+
+  Lemma do_work_hb e i w (st : State) : zmem i (works st) = false -> hb st -> hb (DO_WORK e i w st).
+  Proof.
+    intros Hi H. unfold do_work.
+    set (st0 := match wq with Some _ => set_oslog st (oslog st ++ [OsDup i]) | None => st end).
+    set (st1 := set_works st0 (zset i w (works st0))).
+    assert (H1 : hb st1).
+    { intros j. subst st1 st0. specialize (H j). destruct wq as [q|]; cbn [oslog works set_works set_oslog].
+      - rewrite balance_app, H, zmem_zset. cbn [balance]. rewrite (Z.eqb_sym i j).
+        destruct (j =? i)%Z eqn:E; cbn [orb]; [apply Z.eqb_eq in E; subst; rewrite Hi; lia|destruct (zmem j (works st)); lia].
+      - exact H. }
+    assert (Hi1 : zmem i (works st1) = true) by (subst st1; cbn [works set_works]; rewrite zmem_zset, Z.eqb_refl; reflexivity).
+    clearbody st1. destruct (w_initialize w (ev_io e i)) as [w' r].
+    pose proof (hb_same_hw _ _ (set_works_existing_hw st1 i w' Hi1) H1) as H2.
+    destruct r; [|apply cleanup_hb; exact H2].
+    intros j. cbn [oslog works set_total]. apply H2.
+  Qed.
+
+  Lemma run_task_hw e (st : State) t st' td : RUN_TASK e st t = (st', td) -> same_hw st st'.
+  Proof.
+    unfold run_task. destruct (zget (t_work t) (works st)) as [w|] eqn:Ew.
+    - destruct (w_handle_events w (t_r t) (t_w t) (ev_io e (t_work t))) as [w' r]. intros X; inversion X; subst.
+      apply set_works_existing_hw. eapply zmem_some; exact Ew.
+    - destruct (last_gone W (t_work t) (gone st)) as [w|]; [|intros X; inversion X; subst; apply same_hw_refl].
+      destruct (w_handle_events w (t_r t) (t_w t) (ev_io e (t_work t))) as [w' r]. intros X; inversion X; subst.
+      split; [intros; reflexivity|reflexivity].
+  Qed.
+
+  Lemma run_tasks_hw e ts : forall (st : State) st' res, RUN_TASKS e st ts = (st', res) -> same_hw st st'.
+  Proof.
+    induction ts as [|t rest IH]; intros st st' res; cbn [run_tasks]; [intros X; inversion X; subst; apply same_hw_refl|].
+    destruct (RUN_TASK e st t) as [st1 td] eqn:E1. destruct (RUN_TASKS e st1 rest) as [st2 l] eqn:E2.
+    intros X; inversion X; subst. eapply same_hw_trans; [eapply run_task_hw; exact E1|eapply IH; exact E2].
+  Qed.
+
+  Lemma cleanup_finished_hb e res : forall (st : State), hb st -> hb (CLEANUP_FIN e st res).
+  Proof.
+    unfold cleanup_finished. induction res as [|[i td] t IH]; intros st H; cbn [fold_left fst snd]; [exact H|].
+    apply IH. destruct td; [apply cleanup_hb; exact H|exact H].
+  Qed.
+
+  Lemma inactive_scan_hw e ids : forall (st : State) st' l, SCAN e st ids = (st', l) -> same_hw st st'.
+  Proof.
+    induction ids as [|i t IH]; intros st st' l; cbn [inactive_scan]; [intros X; inversion X; subst; apply same_hw_refl|].
+    destruct (zget i (works st)) as [w|] eqn:Ew; [|apply IH].
+    destruct (w_is_inactive w (ev_clock e) (ev_io e i)) as [w' r].
+    destruct (SCAN e (set_works st (zset i w' (works st))) t) as [st2 l2] eqn:E2.
+    intros X; inversion X; subst. eapply same_hw_trans; [apply set_works_existing_hw; eapply zmem_some; exact Ew|eapply IH; exact E2].
+  Qed.
+
+  Lemma cleanup_inactive_hb e (st : State) : hb st -> hb (CLEANUP_INACTIVE e st).
+  Proof.
+    intros H. unfold cleanup_inactive. destruct (SCAN e st (zkeys (works st))) as [st' l] eqn:E.
+    pose proof (hb_same_hw _ _ (inactive_scan_hw e _ st st' l E) H) as H1. clear E H.
+    revert st' H1. induction l as [|i t IH]; intros st' H1; cbn [fold_left]; [exact H1|]. apply IH, cleanup_hb, H1.
+  Qed.
+
+  Lemma loop_body_hb e (st : State) st' s :
+    INV None st -> env_ok W IO w_get_events w_shutdown wq e st -> hb st -> BODY e st = (st', s) -> hb st'.
+  Proof.
+    intros Hinv [Hk Hf] H. unfold loop_body, run_once.
+    pose proof (update_selector_hb e st H) as HU.
+    destruct (update_selector_inv W IO w_get_events w_shutdown wq e st Hinv) as [HinvU _].
+    destruct (REST e (UPD e st)) as [st1 r] eqn:E1.
+    assert (H1 : hb st1).
+    { revert E1. unfold run_once_rest.
+      destruct (selected_events W IO wq e (UPD e st)) as [[wbi nwa]|]; [|intros X; inversion X; subst; exact HU].
+      destruct (if nwa then RECEIVE e (UPD e st) else (UPD e st, false)) as [s1 td] eqn:Er.
+      assert (Hs1 : hb s1).
+      { destruct nwa; [|inversion Er; subst; exact HU]. revert Er. unfold receive_from_work_queue.
+        unfold arrival_fresh in Hf. destruct (ev_arrival e) as [| |i w]; intros X; inversion X; subst; try exact HU.
+        apply do_work_hb; [apply Hf|exact HU]. }
+      destruct td; [intros X; inversion X; subst; exact Hs1|].
+      destruct wbi as [|p wbi']; [intros X; inversion X; subst; exact Hs1|].
+      destruct (create_tasks W s1 (p :: wbi')) as [ts|]; [|intros X; inversion X; subst; exact Hs1].
+      unfold wait_for_tasks.
+      match goal with |- context [RUN_TASKS e ?s ?l] => destruct (RUN_TASKS e s l) as [s4 res] eqn:E4 end.
+      intros X; inversion X; subst. apply cleanup_finished_hb.
+      eapply hb_same_hw; [eapply run_tasks_hw; exact E4|]. intros j. cbn [oslog works set_unfinished]. apply Hs1. }
+    destruct r as [b|x]; [|intros X; inversion X; subst; exact H1].
+    destruct b; [intros X; inversion X; subst; exact H1|].
+    destruct (tick_limit <=? tick st1).
+    - destruct (ev_running_set e); intros X; inversion X; subst.
+      + apply cleanup_inactive_hb; exact H1.
+      + intros j. cbn [oslog works set_tick]. apply (cleanup_inactive_hb e st1 H1).
+    - intros X; inversion X; subst. intros j. cbn [oslog works set_tick]. apply H1.
+  Qed.
+
+  Lemma hb_init : hb (init_state W wq).
+  Proof. intros i. unfold init_state. cbn [oslog works balance zmem zget]. destruct wq; reflexivity. Qed.
+
+  Theorem handles_closed_exactly_once evs : forall (st : State) st' s,
+    INV None st -> hb st -> SCHED_OK evs st -> RUN evs st = (st', s) -> hb st'.
+  Proof.
+    induction evs as [|e t IH]; intros st st' s Hinv H Hs; cbn [run_forever]; [intros X; inversion X; subst; exact H|].
+    cbn [sched_ok] in Hs. destruct Hs as [He Ht].
+    destruct (BODY e st) as [st1 s1] eqn:E1.
+    pose proof (loop_body_hb e st st1 s1 Hinv He H E1) as H1.
+    destruct (loop_body_inv W IO w_initialize w_get_events w_handle_events w_shutdown w_is_inactive wq tick_limit e st st1 s1 Hinv He E1) as [Hinv1 _].
+    destruct s1; [apply IH; assumption| |]; intros X; inversion X; subst; exact H1.
+  Qed.
+
+  Theorem handles_closed_exactly_once_run evs st' s :
+    SCHED_OK evs (init_state W wq) -> RUN evs (init_state W wq) = (st', s) -> hb st'.
+  Proof. intros Hs E. exact (handles_closed_exactly_once evs _ st' s (inv_init W wq) hb_init Hs E). Qed.
+
+  (* a history — any history, repeated any number of times — that ends with no live work ends with the
+     bookkeeping of a fresh executor and every received handle closed *)
+  Theorem no_growth_exec n evs st' s :
+    SCHED_OK (concat (repeat evs n)) (init_state W wq) ->
+    RUN (concat (repeat evs n)) (init_state W wq) = (st', s) ->
+    works st' = [] ->
+    registered st' = [] /\ (forall f, zget f (sel st') = zget f (sel (init_state W wq))) /\
+    (forall i, balance i (oslog st') = 0%Z).
+  Proof.
+    intros Hs E Hw.
+    pose proof (reachable_inv W IO w_initialize w_get_events w_handle_events w_shutdown w_is_inactive wq tick_limit _ st' s Hs E) as Hinv.
+    destruct (quiescent_is_initial st' Hinv Hw) as [Hr Hsel].
+    split; [exact Hr|]. split; [exact Hsel|].
+    intros i. rewrite (handles_closed_exactly_once _ _ st' s (inv_init W wq) hb_init Hs E i), Hw.
+    destruct wq; reflexivity.
+  Qed.
+End ExecC10.
